@@ -417,16 +417,25 @@ def compare(ex, st, op, a, b, node):
 
 def inf_compare(ex, st, op, a, b, node):
     INF = float("inf")
-    if a == INF and not isinstance(b, float):
+    fa, fb = isinstance(a, float), isinstance(b, float)
+    if fa and a == INF and not fb:
         return isinstance(op, (ast.Gt, ast.GtE))
-    if b == INF and not isinstance(a, float):
+    if fb and b == INF and not fa:
         return isinstance(op, (ast.Lt, ast.LtE))
-    if a == -INF and not isinstance(b, float):
+    if fa and a == -INF and not fb:
         return isinstance(op, (ast.Lt, ast.LtE))
-    if b == -INF and not isinstance(a, float):
+    if fb and b == -INF and not fa:
         return isinstance(op, (ast.Gt, ast.GtE))
-    if isinstance(a, float) and isinstance(b, float):
+    if fa and fb:
         return {ast.Lt: a < b, ast.LtE: a <= b, ast.Gt: a > b, ast.GtE: a >= b}[type(op)]
+    # a finite python float against a symbolic number: the float as an exact rational
+    from fractions import Fraction
+    import math
+    if (fa and math.isfinite(a)) or (fb and math.isfinite(b)):
+        a2 = Fraction(a) if fa else _num(ex, st, a, node)
+        b2 = Fraction(b) if fb else _num(ex, st, b, node)
+        x, y = _both(a2, b2)
+        return {ast.Lt: x < y, ast.LtE: x <= y, ast.Gt: x > y, ast.GtE: x >= y}[type(op)]
     raise _U("comparison with float constant", node)
 
 
@@ -1630,6 +1639,7 @@ MODULE_FUNCS = {
     "pandas.DataFrame": lambda ex, st, a, k, n: __import__("pyvc.pdlib", fromlist=["x"]).dataframe(ex, st, a, k, n),
     "pandas.concat": lambda ex, st, a, k, n: __import__("pyvc.pdlib", fromlist=["x"]).concat(ex, st, a, k, n),
     "numpy.max": lambda ex, st, a, k, n: __import__("pyvc.nplib", fromlist=["x"]).np_max(ex, st, a, k, n),
+    "numpy.min": lambda ex, st, a, k, n: __import__("pyvc.seqlib", fromlist=["x"]).minmax_seq(ex, st, a[0], n, True) if (len(a) == 1 and not k) else (_ for _ in ()).throw(_U("np.min with arguments", n)),
     "numpy.mean": lambda ex, st, a, k, n: __import__("pyvc.nplib", fromlist=["x"]).np_mean(ex, st, a, k, n),
     "numpy.vstack": lambda ex, st, a, k, n: __import__("pyvc.nplib", fromlist=["x"]).np_vstack(ex, st, a, k, n),
     "numpy.append": lambda ex, st, a, k, n: __import__("pyvc.nplib", fromlist=["x"]).np_append(ex, st, a, k, n),
